@@ -19,21 +19,25 @@ MID = dict(B.DEFAULT_CFG, l1=32768, l2=262144, l3=1048576)
 ASAN = 'address,undefined'
 
 
-def mk(fn, q, t, **kw):
+def mk(fn, q, t, tables=None, **kw):
     def s(g, tier):
         fn(g, n(tier, q, t), **kw)
+        if tables:
+            S.suite_tables(g, n(tier, tables[0], tables[1]))
     return s
 
 
 # ---------------------------------------------------------------- C01
 def runs_c01(tier):
-    return [(DEF, None, mk(S.suite_mul, 700, 12000, big=False), []),
+    return [(DEF, None, mk(S.suite_mul, 700, 12000, big=False, tables=(200, 3000)), []),
             (SC, None, mk(S.suite_mul, 500, 8000, big=True), []),
-            (SC_NOSSE, ASAN, mk(S.suite_mul, 250, 3000, big=True), [])]
+            (SC_NOSSE, ASAN, mk(S.suite_mul, 250, 3000, big=True), []),
+            # the multi-core front end exists only in the OpenMP configuration (single thread here: C16 varies the threads)
+            (dict(B.with_openmp(SC), env={'OMP_NUM_THREADS': '2'}), None, mk(S.suite_mul, 200, 2500, big=True), [])]
 
 
 def runs_c02(tier):
-    return [(DEF, None, mk(S.suite_echelon, 700, 10000, big=False), []),
+    return [(DEF, None, mk(S.suite_echelon, 700, 10000, big=False, tables=(200, 3000)), []),
             (SC, None, mk(S.suite_echelon, 400, 6000, big=True), []),
             (SC_NOSSE, ASAN, mk(S.suite_echelon, 200, 2500, big=True), [])]
 
@@ -52,7 +56,7 @@ def runs_c04(tier):
 
 
 def runs_c05(tier):
-    return [(DEF, None, mk(S.suite_inverse, 500, 8000, big=False), []),
+    return [(DEF, None, mk(S.suite_inverse, 500, 8000, big=False, tables=(200, 3000)), []),
             (SC, None, mk(S.suite_inverse, 250, 3000, big=True), []),
             (SC_NOSSE, ASAN, mk(S.suite_inverse, 120, 1500, big=True), [])]
 
@@ -90,6 +94,7 @@ def all_ops(g, k, big=False):
     S.suite_trsm(g, k // 2 + 1, big=big)
     S.suite_inverse(g, k // 2 + 1, big=big)
     S.suite_solve(g, k, big=big)
+    S.suite_tables(g, k)
 
 
 def runs_c09(tier):
